@@ -153,10 +153,8 @@ def column_relative_humidity(q, p, t, axis=0):
         es = e_eq_mixed_mk(t)
         es.shape = (dim)
         # es to qs 
-        if len(dim) == 1:
-            l = len(es)
-        else:
-            l = len(es[axis])
+        # number of levels along the integration axis
+        l = es.shape[axis]
         # qs = specific_humidity(es, ps)
         qs = np.zeros(dim)
         es = es.swapaxes(0,axis)
